@@ -336,6 +336,11 @@ pub mod c09_qs {
             "str" => QueryConfigQueryParams(cfg(&a[1..])).to_string(),
             "parse" => parse(a[1]),
             "rt" => parse(&QueryConfigQueryParams(cfg(&a[1..])).to_string()),
+            // the JSON body of `prepare_query` (leader -> follower helpers and shards): decode only
+            "jparse" => match serde_json::from_str::<QueryConfig>(a[1]) {
+                Ok(c) => format!("ok {}", show(&c)),
+                Err(_) => "err".into(),
+            },
             "json" => {
                 let c = cfg(&a[1..]);
                 let text = serde_json::to_string(&c).unwrap();
@@ -436,6 +441,26 @@ pub mod c09_qs {
             "query_type=test-add&field_type=Fp31&size=10&max_breakdown_key=x".to_string(),
         ] {
             out.push(format!("c09.query parse {q}"));
+        }
+        // sizes around the bounds of QuerySize on both wire paths (query string of `create`, JSON body of `prepare_query`)
+        let jbase = serde_json::to_string(&cfg(&["test-add", "Fp31", "10"])).unwrap();
+        let jhyb = serde_json::to_string(&cfg(&["malicious-hybrid", "Fp32BitPrime", "10", "5", "1", "5", "false"])).unwrap();
+        assert!(jbase.contains("\"size\":10") && jhyb.contains("\"size\":10") && !jbase.contains(' ') && !jhyb.contains(' '));
+        for sz in [
+            "0", "1", "2", "999999999", "1000000000", "1000000001", "1000000002", "2000000000", "2147483647", "2147483648",
+            "4294967295", "4294967296", "18446744073709551615", "-1", "1.5", "\"7\"", "null",
+        ] {
+            out.push(format!("c09.query jparse {}", jbase.replace("\"size\":10", &format!("\"size\":{sz}"))));
+            out.push(format!("c09.query jparse {}", jhyb.replace("\"size\":10", &format!("\"size\":{sz}"))));
+            if !sz.contains('"') {
+                out.push(format!("c09.query parse query_type=test-multiply&field_type=Fp32BitPrime&size={sz}"));
+                out.push(format!("c09.query parse {base}&max_breakdown_key=5&with_dp=1&epsilon=5&size={sz}").replace("&size=10&", "&"));
+            }
+        }
+        for _ in 0..(if thorough { 400 } else { 40 }) {
+            let sz = 1_000_000_001u64 + rng.below(3_294_967_295);
+            out.push(format!("c09.query jparse {}", jbase.replace("\"size\":10", &format!("\"size\":{sz}"))));
+            out.push(format!("c09.query parse query_type=test-add&field_type=Fp31&size={sz}"));
         }
         out
     }
